@@ -226,6 +226,29 @@ pub fn check(input: &str) -> (Vec<Violation>, bool, u64) {
             if info.len() != total {
                 fail!("aisle lookup has extra entries", "{} entries for {total} names", info.len());
             }
+            // the same lookup through the bindings' configuration object
+            if !conf.categories.is_empty() {
+                match guarded(|| cooklang_bindings::parse_aisle_config(input.to_string())) {
+                    Err(m) => fail!("aisle lookup through the bindings panicked", "{m}"),
+                    Ok(b) => {
+                        for c in &conf.categories {
+                            for i in &c.ingredients {
+                                for n in &i.names {
+                                    let got = b.category_for(n.to_string());
+                                    if got.as_deref() != Some(c.name) {
+                                        fail!("aisle lookup through the bindings wrong", "name {n:?}: category_for gives {got:?}, expected {:?}", c.name);
+                                    }
+                                }
+                            }
+                        }
+                        let names: Vec<(&str, Vec<Vec<&str>>)> = conf.categories.iter().map(|c| (c.name, c.ingredients.iter().map(|i| i.names.clone()).collect())).collect();
+                        let bnames: Vec<(&str, Vec<Vec<&str>>)> = b.categories.iter().map(|c| (c.name.as_str(), c.ingredients.iter().map(|i| std::iter::once(i.name.as_str()).chain(i.aliases.iter().map(|a| a.as_str())).collect()).collect())).collect();
+                        if names != bnames {
+                            fail!("bindings' aisle categories differ from the parsed configuration", "{bnames:?} vs {names:?}");
+                        }
+                    }
+                }
+            }
             if let Some(r) = reference {
                 let got: Vec<(String, Vec<Vec<String>>)> = conf
                     .categories
@@ -244,7 +267,7 @@ pub fn check(input: &str) -> (Vec<Violation>, bool, u64) {
 
 pub fn run(tier: Tier) {
     let c = ctx();
-    c.set_rule("every canonical symbol sequence up to the stated length over the aisle alphabet; oracles: no panic; Err => spans in bounds on char boundaries, duplicate spans slice to the reported name, write_rich_error renders; Ok => names are trimmed sub-slices of the input in file order, no duplicates, every non-blank non-separator character outside comments is in a name, parse(write(conf)) == conf, ingredients_info maps every name to its category and first name; on inputs with ASCII whitespace the result equals an independent reference parser; non-trivial = an error or at least one category; distinct = distinct hash of the result");
+    c.set_rule("every canonical symbol sequence up to the stated length over the aisle alphabet, and over a second alphabet of names differing only in case; oracles: no panic; Err => spans in bounds on char boundaries, duplicate spans slice to the reported name, write_rich_error renders; Ok => names are trimmed sub-slices of the input in file order, no duplicates, every non-blank non-separator character outside comments is in a name, parse(write(conf)) == conf, ingredients_info maps every name to its category and first name, and so does the bindings' configuration object built from the same text (category_for, categories); on inputs with ASCII whitespace the result equals an independent reference parser; non-trivial = an error or at least one category; distinct = distinct hash of the result");
     let a = a_aisle();
     let (canon, distinct) = a.self_check(4);
     if canon != distinct {
@@ -285,6 +308,70 @@ pub fn run(tier: Tier) {
         }
         v
     });
+    // names that differ only in case (the format is case sensitive)
+    {
+        let a = Arc::new(Alphabet::new("A_aisle_case", &["a", "A", "é", "É", "|", "\n", "[", "]", " "]));
+        let n = tier.pick(7, 8);
+        let total = a.count_upto(n);
+        let a2 = a.clone();
+        let describe = move |idx: u64| {
+            let mut seq = Vec::new();
+            let mut s = String::new();
+            a2.decode_upto(idx, n, &mut seq);
+            a2.concat(&seq, &mut s);
+            json!({"input": s})
+        };
+        c.part(json!({"alphabet": a.name, "symbols": a.syms}));
+        sweep(&format!("C11: A_aisle_case strings of 0..={n} symbols"), total, describe, |idx, local| {
+            let mut seq = Vec::with_capacity(n as usize);
+            let mut s = String::new();
+            a.decode_upto(idx, n, &mut seq);
+            a.concat(&seq, &mut s);
+            local.evaluations += 1;
+            let (v, nontrivial, h) = check(&s);
+            if nontrivial {
+                local.observe(h);
+            }
+            v
+        });
+    }
+    // structured files: 1..=2 categories x 1..=2 lines x 1..=2 names over names that collide only by case
+    {
+        const CATS: [&str; 3] = ["a", "A", "b"];
+        const NAMES: [&str; 4] = ["a", "A", "é", "É"];
+        let lines: Vec<String> = NAMES.iter().map(|n| n.to_string()).chain(NAMES.iter().flat_map(|n| NAMES.iter().map(move |m| format!("{n}|{m}")))).collect();
+        let mut cats: Vec<String> = Vec::new();
+        for c in CATS {
+            for l in &lines {
+                cats.push(format!("[{c}]\n{l}\n"));
+                for l2 in &lines {
+                    cats.push(format!("[{c}]\n{l}\n{l2}\n"));
+                }
+            }
+        }
+        let k = cats.len() as u64;
+        let total = k + k * k;
+        let cats = Arc::new(cats);
+        let c2 = cats.clone();
+        let build = move |idx: u64| -> String {
+            if idx < k {
+                c2[idx as usize].clone()
+            } else {
+                let r = idx - k;
+                format!("{}{}", c2[(r / k) as usize], c2[(r % k) as usize])
+            }
+        };
+        let b2 = build.clone();
+        sweep(&format!("C11: structured files, 1..=2 of {k} categories (3 names x 1..=2 lines x 1..=2 of 4 names colliding by case)"), total, move |i| json!({"input": b2(i)}), |idx, local| {
+            let s = build(idx);
+            local.evaluations += 1;
+            let (v, nontrivial, h) = check(&s);
+            if nontrivial {
+                local.observe(h);
+            }
+            v
+        });
+    }
     // a realistic corpus and its single edits
     let corpus = ["[produce]\npotatoes\n\n[dairy]\nmilk\nbutter|mantequilla // spanish\n", "// c\n[a b]\nx y|z\n[c]\n", "[a]\n1|2|3\n[b]\n4\r\n5 | 6\n"];
     let syms = a.syms.clone();
